@@ -36,7 +36,8 @@ def tstep (S : Strs) (s : State) (f : FragRef) : State :=
           flushClient (s.updReq mi (fun r => { r with m := m2 })) r.owner
   | _ => s
 
-theorem expire_eq (S : Strs) (s : State) : expire S s = { (s.timeouts.foldl (tstep S) s) with timeouts := [] } := rfl
+theorem expire_eq (S : Strs) (s : State) (n : Nat) :
+    expire S s n = { (((liveDeadlines s).take n).foldl (tstep S) s) with timeouts := (liveDeadlines s).drop n } := rfl
 
 /-- the request was completed by a timeout: done, answered with the timeout error, every fragment done -/
 def TimedOut (S : Strs) (r : Req) : Prop :=
@@ -151,25 +152,36 @@ theorem fold_times_out (S : Strs) (ts : List FragRef) (s : State) (mi : Nat) (r 
 
 
 /-- **C16 (completion)** -/
-theorem C16_expiry_completes (s : State) (mi : Nat) (r : Req) (hr : s.msgs[mi]? = some r)
-    (h : ∃ slot fr, FragRef.frag mi slot ∈ s.timeouts ∧ getFrag r.m slot = some fr ∧ fr.done = false) :
-    ∃ r', (expire goStrs s).msgs[mi]? = some r' ∧ r'.m.done = true ∧ r'.m.rspBody = Gen.strErrMsgRequestTimeout ∧
+theorem C16_expiry_completes (s : State) (n : Nat) (mi : Nat) (r : Req) (hr : s.msgs[mi]? = some r)
+    (h : ∃ slot fr, FragRef.frag mi slot ∈ (liveDeadlines s).take n ∧ getFrag r.m slot = some fr ∧ fr.done = false) :
+    ∃ r', (expire goStrs s n).msgs[mi]? = some r' ∧ r'.m.done = true ∧ r'.m.rspBody = Gen.strErrMsgRequestTimeout ∧
       (∀ x ∈ r'.m.frags, x.done = true) ∧ r'.owner = r.owner ∧ r'.num = r.num := by
-  obtain ⟨r', h1, h2, h3, h4⟩ := (fold_times_out goStrs s.timeouts s mi r hr).2 h
+  obtain ⟨r', h1, h2, h3, h4⟩ := (fold_times_out goStrs ((liveDeadlines s).take n) s mi r hr).2 h
   exact ⟨r', by rw [expire_eq]; exact h1, h2.1, h2.2.1, h2.2.2.2, h3, h4⟩
 
-/-- a request that is not affected keeps its state -/
-theorem C16_others_untouched (s : State) (mj : Nat) (h : ∀ slot, FragRef.frag mj slot ∉ s.timeouts) :
-    (expire goStrs s).msgs[mj]? = s.msgs[mj]? := by
+/-- a request none of whose deadlines has passed keeps its state -/
+theorem C16_others_untouched (s : State) (n : Nat) (mj : Nat) (h : ∀ slot, FragRef.frag mj slot ∉ (liveDeadlines s).take n) :
+    (expire goStrs s n).msgs[mj]? = s.msgs[mj]? := by
   rw [expire_eq]
-  show (s.timeouts.foldl (tstep goStrs) s).msgs[mj]? = _
-  generalize s.timeouts = ts at h
+  show (((liveDeadlines s).take n).foldl (tstep goStrs) s).msgs[mj]? = _
+  generalize (liveDeadlines s).take n = ts at h
   induction ts generalizing s with
   | nil => rfl
   | cons f ts ih =>
     simp only [List.foldl_cons]
     rw [ih _ (fun slot hm => h slot (List.mem_cons_of_mem _ hm))]
     exact tstep_other goStrs s f mj (fun slot e => h slot (by rw [e]; simp))
+
+/-- the deadlines that have not passed stay pending, in order; with `n` at least the number of pending deadlines all
+    of them have passed -/
+theorem C16_later_deadlines_stay (s : State) (n : Nat) : (expire goStrs s n).timeouts = (liveDeadlines s).drop n := rfl
+
+theorem C16_all_passed (s : State) (n : Nat) (h : s.timeouts.length ≤ n) :
+    (liveDeadlines s).take n = liveDeadlines s ∧ (expire goStrs s n).timeouts = [] := by
+  have hl : (liveDeadlines s).length ≤ n := Nat.le_trans (List.length_filter_le _ _) h
+  refine ⟨List.take_of_length_le hl, ?_⟩
+  rw [C16_later_deadlines_stay]
+  exact List.drop_of_length_le hl
 
 /-- **C16 (late reply)**: after the timeout every fragment of the request is done, so whatever redis
     sends for it later is dropped without touching anything -/
@@ -199,7 +211,7 @@ def getReq (k : UInt8) : Bytes := [42, 50, 13, 10, 36, 51, 13, 10, 103, 101, 116
 def exEvents : List Event :=
   [.connect true,
    .clientBytes 0 (getReq 98 ++ getReq 97) [{ visit := [(3300, [109])] }, { visit := [(15495, [110])] }],
-   .runTasks, .expire,
+   .runTasks, .expire 2,
    .backendBytes 0 [36, 49, 13, 10, 120, 13, 10], .backendBytes 1 [36, 49, 13, 10, 121, 13, 10],
    .clientBytes 0 (getReq 98) [{ visit := [(3300, [109])] }], .runTasks,
    .backendBytes 0 [36, 49, 13, 10, 122, 13, 10]]
@@ -209,6 +221,21 @@ example :
     s.flag = none ∧
     s.clients.map (·.out) = [Gen.strErrMsgRequestTimeout ++ Gen.strErrMsgRequestTimeout ++ [36, 49, 13, 10, 122, 13, 10]] ∧
     s.clients.map (·.queue.length) = [0] := by
+  decide +kernel
+
+/- only the earlier deadline has passed: the first request gets the timeout error (its late reply is dropped), the
+   second one is answered normally -/
+def exEventsOne : List Event :=
+  [.connect true,
+   .clientBytes 0 (getReq 98 ++ getReq 97) [{ visit := [(3300, [109])] }, { visit := [(15495, [110])] }],
+   .runTasks, .expire 1,
+   .backendBytes 0 [36, 49, 13, 10, 120, 13, 10], .backendBytes 1 [36, 49, 13, 10, 121, 13, 10]]
+example :
+    let s := reach exCfgT goSlot [([109], false), ([110], false)]
+      [(0, 8191, { master := [109], slaves := [] }), (8192, 16383, { master := [110], slaves := [] })] exEventsOne
+    s.flag = none ∧
+    s.clients.map (·.out) = [Gen.strErrMsgRequestTimeout ++ [36, 49, 13, 10, 121, 13, 10]] ∧
+    s.clients.map (·.queue.length) = [0] ∧ s.timeouts = [] := by
   decide +kernel
 
 end RcVerif.Props.C16
